@@ -85,6 +85,12 @@ CLAIMED = {
    text="For every program: every load/store inside [0,size) (no_fault), verdict in the defined set, PASS/OK implies the frame is byte-identical unless the program's actsOn predicate holds (cache hit / NAT flow), nat44 writes confined to the address/port/checksum fields; termination is Lean totality.",
    note='Trusted: Lean kernel + propext/Classical.choice/Quot.sound (audited per theorem); the hand-written byte-level models, validated on every run by native differential execution of the UNMODIFIED C programs (clang -O1, ASan+UBSan, frame flush against a guard page) and of the real Go control plane writing into real kernel maps; the cshim helper shims; harnesses and bngdrv; clang native build stands in for the BPF back end and in-kernel verifier; reads below `data` are not trapped by the guard page; per-CPU maps have one CPU.'),
 }
+import subprocess
+try:
+    HOOK_COMMITS = subprocess.run(["git", "-C", "/repo", "log", "--reverse", "--format=%h %s", "--grep=^verif hook"],
+                                  stdout=subprocess.PIPE, text=True).stdout.strip().splitlines()
+except Exception:
+    HOOK_COMMITS = []
 NA_REASON = "not claimed in this revision: model, theorems and correspondence for this property are not built yet (see DESIGN.md §7 for the plan); no check is registered rather than registering a weaker technique"
 m = {
  "version": 1,
@@ -93,7 +99,7 @@ m = {
   "guard": "verif",
   "enable": "go build -tags verif (the harness module /verif/harness replaces github.com/codelaboratoryltd/bng with /repo)",
   "baseline_off_cmd": "cd /repo && go test -json -vet=off -count=1 -timeout 25m -mod=mod ./...",
-  "source_commits": [],
+  "source_commits": HOOK_COMMITS,
   "add_only": True,
  },
  "engines": [
